@@ -259,6 +259,11 @@ def r1_rights_semantic(ctx, R):
         rem = [(a, u) for m, a, u in calls if m == 'remove']
         lose = [a for m, a, u in calls if m == 'lose_castle_rights']
         if len(rem) != 2 or not lose or not all(is_const(a[1]) for a in lose):
+            if getattr(ctx, 'helpers_present', False):
+                # the helpers do not fold on symbolic arguments (they iterate over a table): they were tabulated on their whole domain above and
+                # R1-standard-effect checked that apply loses exactly moved(..) | taken(..)
+                ctx.ob(rule, name, 'rights lost: decided by the helper tables and the effect shape', True, nontrivial=False)
+                return
             ctx.ob(rule, name, 'path shape: two removes, constant rights mask per path', False, found=[show(a[1])[:80] for a in lose],
                    expected='remove(from), remove(to), lose_castle_rights(<constant on this path>)')
             return
